@@ -2,15 +2,31 @@
 //! delivered.  DESIGN.md §6 C03.  SimDriver; a link-state model driven only
 //! by the controller's own calls, over a global event log kept in execution
 //! order (everything is single-threaded, so log order is real order).
+//!
+//! The traffic driver is a private copy of `drivers::linktraffic` (shared with
+//! C08) extended with (a) an address plan -- names resolved out of
+//! registration order, hosts registered under explicit IP addresses -- and
+//! (b) TCP close operations plus observation of what the surviving end sees
+//! (EOF, reset, failing writes).  A "message" in the property text is a
+//! turmoil wire message (`turmoil::Protocol`): UDP datagrams, TCP data
+//! segments, SYN, and the control segments FIN and RST.  FIN / RST carry no
+//! payload; their delivery is observable by the application as EOF /
+//! ConnectionReset / BrokenPipe on the receiving end.
 
-use crate::drivers::linktraffic::*;
-use crate::drivers::sel::{self, Sel};
+use crate::drivers::linktraffic::{CtlEv, Kind};
+use crate::drivers::sel::{self, poll_once, Sel, SelArg};
 use crate::engine::{replay_as, Ctx, Outcome, Tier};
+use crate::sel2;
 use proptest::prelude::*;
 use serde::{Deserialize, Serialize};
 use serde_json::Value;
+use std::cell::{Cell, RefCell};
 use std::collections::{BTreeMap, BTreeSet};
+use std::net::{IpAddr, Ipv4Addr, Ipv6Addr};
+use std::rc::Rc;
 use std::time::{Duration, SystemTime};
+use tokio::io::{AsyncReadExt, AsyncWriteExt};
+use turmoil::{Datagram, Protocol, Segment};
 
 pub const PROP: super::Prop = super::Prop {
     id: "C03",
@@ -35,6 +51,48 @@ pub struct Scenario {
     /// (step offset, src, dst): at most one per ordered pair is used
     pub probes: Vec<(u32, usize, usize)>,
     pub ctl: Vec<CtlEv>,
+    /// how host names / addresses are laid out (default: names, addresses in registration order)
+    #[serde(default)]
+    pub addr: AddrPlan,
+    /// TCP close operations on the persistent streams (at most one per host pair is used)
+    #[serde(default)]
+    pub closes: Vec<CloseOp>,
+}
+
+/// Address layout.  Hosts are always registered in index order h0, h1, ...;
+/// what varies is which address each one gets, so that the hosts of a link are
+/// registered in ascending, descending or mixed address order.
+#[derive(Clone, Debug, Default, Serialize, Deserialize)]
+pub struct AddrPlan {
+    /// host names resolved through `Sim::lookup` (which allocates the address)
+    /// before any host is registered, in this order
+    #[serde(default)]
+    pub pre_resolve: Vec<usize>,
+    /// per host: Some(k) = registered under explicit address #k of a fixed
+    /// pool (such a host has no DNS name; it is named by IP or IP string)
+    #[serde(default)]
+    pub explicit: Vec<Option<u8>>,
+}
+
+#[derive(Clone, Copy, Debug, Serialize, Deserialize, PartialEq, Eq)]
+pub enum CloseHow {
+    /// drop read half then write half (what dropping a TcpStream does)
+    DropBoth,
+    /// drop only the read half; keep writing
+    DropReader,
+    /// drop only the write half (FIN); keep reading
+    DropWriter,
+    /// `shutdown()` the write half (FIN); keep reading
+    Shutdown,
+}
+
+#[derive(Clone, Debug, Serialize, Deserialize)]
+pub struct CloseOp {
+    /// offset (in steps) after the warm-up
+    pub step: u32,
+    pub host: usize,
+    pub peer: usize,
+    pub how: CloseHow,
 }
 
 #[derive(Clone, Copy, Debug, PartialEq, Eq)]
@@ -46,6 +104,467 @@ enum St {
     InFlightAtCut,
     DontCare,
 }
+
+
+// ======================================================================
+// traffic driver: private, extended copy of drivers::linktraffic
+
+#[derive(Clone, Copy, Debug, PartialEq, Eq, PartialOrd, Ord, Hash)]
+enum P {
+    Udp,
+    Tcp,
+    Syn,
+    /// the FIN of the persistent stream src -> dst (seq is always 0)
+    Fin,
+}
+
+/// (proto, src, dst, seq)
+type MsgId = (P, usize, usize, u32);
+
+#[derive(Clone, Copy, Debug, PartialEq, Eq)]
+enum Seen {
+    /// read returned end-of-stream: the peer's FIN was delivered
+    Eof,
+    /// read failed (ConnectionReset): a RST from the peer was delivered
+    ReadReset,
+    /// write failed (BrokenPipe): a RST from the peer was delivered
+    WriteErr,
+}
+
+#[derive(Clone, Debug)]
+enum Ev {
+    Send { id: MsgId, step: u64 },
+    Recv { id: MsgId },
+    Ctl { kind: Kind, pairs: Vec<(usize, usize)>, step: u64, by_host: bool, snapshot: Option<Vec<MsgId>> },
+    ProbeResult { id: MsgId, ok: bool, kind: String },
+    /// `host` closes (part of) its end of the persistent stream with `peer`
+    Close { host: usize, peer: usize, how: CloseHow, step: u64 },
+    /// what the application on `at` saw on its end of the stream with `peer`
+    Saw { at: usize, peer: usize, what: Seen, kind: String, step: u64 },
+}
+
+#[derive(Clone, Default)]
+struct Shared {
+    step: Rc<Cell<u64>>,
+    log: Rc<RefCell<Vec<Ev>>>,
+    errors: Rc<RefCell<Vec<String>>>,
+    ready: Rc<Cell<usize>>,
+    /// address of every host, filled in once all hosts are registered
+    addrs: Rc<RefCell<Vec<IpAddr>>>,
+}
+
+const UDP_PORT: u16 = 9000;
+const TCP_PORT: u16 = 9001;
+const PROBE_PORT: u16 = 9002;
+
+fn enc(p: P, src: usize, dst: usize, seq: u32) -> [u8; 12] {
+    let mut b = [0u8; 12];
+    b[0] = match p {
+        P::Udp => 1,
+        P::Tcp => 2,
+        P::Syn => 3,
+        P::Fin => 4,
+    };
+    b[1] = src as u8;
+    b[2] = dst as u8;
+    b[4..8].copy_from_slice(&seq.to_le_bytes());
+    b[8..12].copy_from_slice(&(seq ^ 0xA5A5_5A5A).to_le_bytes());
+    b
+}
+fn dec(b: &[u8]) -> Option<MsgId> {
+    if b.len() != 12 {
+        return None;
+    }
+    let p = match b[0] {
+        1 => P::Udp,
+        2 => P::Tcp,
+        _ => return None,
+    };
+    let seq = u32::from_le_bytes(b[4..8].try_into().unwrap());
+    if u32::from_le_bytes(b[8..12].try_into().unwrap()) != seq ^ 0xA5A5_5A5A {
+        return None;
+    }
+    Some((p, b[1] as usize, b[2] as usize, seq))
+}
+
+#[derive(Clone)]
+struct HostPlan {
+    me: usize,
+    n: usize,
+    v6: bool,
+    warm: u64,
+    traffic_end: u64,
+    tcp: bool,
+    /// per host: registered under a DNS name (h<i>) rather than an explicit address
+    named: Vec<bool>,
+    /// absolute step -> host-issued controller calls
+    ctl: BTreeMap<u64, Vec<CtlEv>>,
+    /// absolute step -> probe targets
+    probes: BTreeMap<u64, Vec<usize>>,
+    /// absolute step -> (peer, how) close operations
+    closes: BTreeMap<u64, Vec<(usize, CloseHow)>>,
+}
+
+/// Fixed pool of explicit addresses: even k sorts below, odd k above the
+/// range turmoil allocates names from (192.168.0.0/16, fe80::/64).
+fn pool_addr(k: u8, v6: bool) -> IpAddr {
+    let k = (k % 8) as u16;
+    let low = k % 2 == 0;
+    if v6 {
+        if low {
+            IpAddr::V6(Ipv6Addr::new(0xfd00, 0, 0, 0, 0, 0, 0, 0x10 + k))
+        } else {
+            IpAddr::V6(Ipv6Addr::new(0xfe80, 0, 0, 1, 0, 0, 0, 0x10 + k))
+        }
+    } else if low {
+        IpAddr::V4(Ipv4Addr::new(10, 0, 0, (0x10 + k) as u8))
+    } else {
+        IpAddr::V4(Ipv4Addr::new(203, 0, 113, (0x10 + k) as u8))
+    }
+}
+
+/// A host without a DNS name cannot be matched by a regex: restrict regex
+/// selectors to the named hosts (or name the first host by IP if none is left).
+fn eff_sel(s: &Sel, n: usize, named: &[bool]) -> Sel {
+    match s {
+        Sel::Regex(_) => {
+            let hs = sel::hosts(s, n);
+            let keep: Vec<usize> = hs.iter().copied().filter(|h| named[*h]).collect();
+            if hs.is_empty() || keep.len() == hs.len() {
+                s.clone()
+            } else if keep.is_empty() {
+                Sel::Ip(hs[0])
+            } else {
+                Sel::Regex(keep)
+            }
+        }
+        other => other.clone(),
+    }
+}
+
+fn arg2(s: &Sel, n: usize, named: &[bool], addrs: &[IpAddr], lookup: &dyn Fn(String) -> IpAddr) -> SelArg {
+    match s {
+        Sel::Name(i) => {
+            let i = i % n;
+            if named[i] {
+                SelArg::Name(format!("h{i}"))
+            } else {
+                // "named by string": the textual form of the address
+                SelArg::Name(addrs[i].to_string())
+            }
+        }
+        Sel::Ip(i) => {
+            let i = i % n;
+            if named[i] {
+                SelArg::Ip(lookup(format!("h{i}")))
+            } else {
+                SelArg::Ip(addrs[i])
+            }
+        }
+        Sel::Regex(_) => sel::arg(s, n, lookup),
+    }
+}
+
+fn host_ctl(c: &CtlEv, n: usize, named: &[bool], addrs: &[IpAddr]) {
+    let lookup = |name: String| turmoil::lookup(name);
+    let a = arg2(&c.a, n, named, addrs, &lookup);
+    let b = arg2(&c.b, n, named, addrs, &lookup);
+    match c.kind {
+        Kind::Partition => sel2!(a, b, |x, y| turmoil::partition(x, y)),
+        Kind::PartitionOneway => sel2!(a, b, |x, y| turmoil::partition_oneway(x, y)),
+        Kind::Repair => sel2!(a, b, |x, y| turmoil::repair(x, y)),
+        Kind::RepairOneway => sel2!(a, b, |x, y| turmoil::repair_oneway(x, y)),
+        Kind::Hold => sel2!(a, b, |x, y| turmoil::hold(x, y)),
+        Kind::Release => sel2!(a, b, |x, y| turmoil::release(x, y)),
+    }
+}
+
+fn sim_ctl(sim: &turmoil::Sim<'_>, c: &CtlEv, n: usize, named: &[bool], addrs: &[IpAddr]) {
+    let lookup = |name: String| sim.lookup(name);
+    let a = arg2(&c.a, n, named, addrs, &lookup);
+    let b = arg2(&c.b, n, named, addrs, &lookup);
+    match c.kind {
+        Kind::Partition => sel2!(a, b, |x, y| sim.partition(x, y)),
+        Kind::PartitionOneway => sel2!(a, b, |x, y| sim.partition_oneway(x, y)),
+        Kind::Repair => sel2!(a, b, |x, y| sim.repair(x, y)),
+        Kind::RepairOneway => sel2!(a, b, |x, y| sim.repair_oneway(x, y)),
+        Kind::Hold => sel2!(a, b, |x, y| sim.hold(x, y)),
+        Kind::Release => sel2!(a, b, |x, y| sim.release(x, y)),
+    }
+}
+
+/// The messages currently in flight on all links, as far as the model tracks them.
+fn snapshot(sim: &turmoil::Sim<'_>, ip2h: &BTreeMap<IpAddr, usize>) -> Vec<MsgId> {
+    let mut out = Vec::new();
+    sim.links(|links| {
+        for link in links {
+            for sent in link {
+                let (s, d) = sent.pair();
+                match sent.protocol() {
+                    Protocol::Udp(Datagram(b)) => {
+                        if let Some(id) = dec(b) {
+                            out.push(id);
+                        }
+                    }
+                    Protocol::Tcp(Segment::Data(_, b)) => {
+                        if let Some(id) = dec(b) {
+                            out.push(id);
+                        }
+                    }
+                    Protocol::Tcp(Segment::Syn(_)) if d.port() == PROBE_PORT => {
+                        if let (Some(a), Some(b)) = (ip2h.get(&s.ip()), ip2h.get(&d.ip())) {
+                            // at most one probe per ordered pair
+                            out.push((P::Syn, *a, *b, u32::MAX));
+                        }
+                    }
+                    Protocol::Tcp(Segment::Fin(_)) if s.port() == TCP_PORT || d.port() == TCP_PORT => {
+                        if let (Some(a), Some(b)) = (ip2h.get(&s.ip()), ip2h.get(&d.ip())) {
+                            out.push((P::Fin, *a, *b, 0));
+                        }
+                    }
+                    _ => {}
+                }
+            }
+        }
+    });
+    out
+}
+
+#[derive(Default)]
+struct Conn {
+    w: Option<turmoil::net::tcp::OwnedWriteHalf>,
+    /// write half shut down by the application (FIN sent)
+    shut: bool,
+    reader: Option<tokio::task::JoinHandle<()>>,
+}
+
+fn spawn_reader(sh: Shared, me: usize, peer: usize, mut r: turmoil::net::tcp::OwnedReadHalf) -> tokio::task::JoinHandle<()> {
+    tokio::task::spawn_local(async move {
+        let mut buf = [0u8; 12];
+        loop {
+            match r.read_exact(&mut buf).await {
+                Ok(_) => match dec(&buf) {
+                    Some(id) if id.2 == me => sh.log.borrow_mut().push(Ev::Recv { id }),
+                    other => {
+                        sh.errors.borrow_mut().push(format!("h{me}: bad tcp chunk {other:?}"));
+                        break;
+                    }
+                },
+                Err(e) => {
+                    let what = if e.kind() == std::io::ErrorKind::UnexpectedEof { Seen::Eof } else { Seen::ReadReset };
+                    sh.log.borrow_mut().push(Ev::Saw { at: me, peer, what, kind: format!("{:?}", e.kind()), step: sh.step.get() });
+                    break;
+                }
+            }
+        }
+        // the application never closes on its own: keep the read half alive
+        std::future::pending::<()>().await;
+        drop(r);
+    })
+}
+
+async fn host_software(sh: Shared, plan: HostPlan) -> turmoil::Result {
+    let me = plan.me;
+    let any = if plan.v6 { "::" } else { "0.0.0.0" };
+    let udp = Rc::new(turmoil::net::UdpSocket::bind((any, UDP_PORT)).await?);
+    let lis = turmoil::net::TcpListener::bind((any, TCP_PORT)).await?;
+    let probe_lis = turmoil::net::TcpListener::bind((any, PROBE_PORT)).await?;
+    sh.ready.set(sh.ready.get() + 1);
+
+    // UDP receiver
+    {
+        let (sh, udp) = (sh.clone(), udp.clone());
+        tokio::task::spawn_local(async move {
+            let mut buf = [0u8; 64];
+            loop {
+                match udp.recv_from(&mut buf).await {
+                    Ok((n, _)) => match dec(&buf[..n]) {
+                        Some(id) if id.2 == me => sh.log.borrow_mut().push(Ev::Recv { id }),
+                        other => sh.errors.borrow_mut().push(format!("h{me}: bad datagram {other:?}")),
+                    },
+                    Err(e) => sh.errors.borrow_mut().push(format!("h{me}: recv_from {e}")),
+                }
+            }
+        });
+    }
+    // probe acceptor: accept and drop
+    tokio::task::spawn_local(async move {
+        loop {
+            if probe_lis.accept().await.is_err() {
+                break;
+            }
+        }
+    });
+    // persistent TCP: one stream per peer, accepted from lower-numbered hosts,
+    // connected to higher-numbered ones
+    let conns: Rc<RefCell<BTreeMap<usize, Conn>>> = Default::default();
+    if plan.tcp {
+        let (sh2, c2, n) = (sh.clone(), conns.clone(), plan.n);
+        tokio::task::spawn_local(async move {
+            loop {
+                match lis.accept().await {
+                    Ok((s, from)) => {
+                        let peer = sh2.addrs.borrow().iter().take(n).position(|a| *a == from.ip());
+                        let Some(peer) = peer else { continue };
+                        let (r, w) = s.into_split();
+                        let reader = spawn_reader(sh2.clone(), me, peer, r);
+                        c2.borrow_mut().insert(peer, Conn { w: Some(w), shut: false, reader: Some(reader) });
+                    }
+                    Err(_) => break,
+                }
+            }
+        });
+    } else {
+        drop(lis);
+    }
+
+    // wait until every host has bound
+    while sh.ready.get() < plan.n {
+        tokio::time::sleep(Duration::from_millis(1)).await;
+    }
+    if plan.tcp {
+        for peer in (me + 1)..plan.n {
+            let r = if plan.named[peer] {
+                turmoil::net::TcpStream::connect((format!("h{peer}").as_str(), TCP_PORT)).await
+            } else {
+                let ip = sh.addrs.borrow()[peer];
+                turmoil::net::TcpStream::connect((ip, TCP_PORT)).await
+            };
+            match r {
+                Ok(s) => {
+                    let (r, w) = s.into_split();
+                    let reader = spawn_reader(sh.clone(), me, peer, r);
+                    conns.borrow_mut().insert(peer, Conn { w: Some(w), shut: false, reader: Some(reader) });
+                }
+                Err(e) => sh.errors.borrow_mut().push(format!("h{me}: warm-up connect to h{peer}: {e}")),
+            }
+        }
+    }
+
+    // main per-step driver
+    let mut last = 0u64;
+    let mut seq = 0u32;
+    let mut probe_seq = 0u32;
+    loop {
+        let k = sh.step.get();
+        if k != last {
+            last = k;
+            if k > plan.warm {
+                if let Some(cs) = plan.ctl.get(&k) {
+                    for c in cs {
+                        let pairs = sel::pairs(&c.a, &c.b, plan.n);
+                        sh.log.borrow_mut().push(Ev::Ctl { kind: c.kind, pairs, step: k, by_host: true, snapshot: None });
+                        let addrs = sh.addrs.borrow().clone();
+                        host_ctl(c, plan.n, &plan.named, &addrs);
+                    }
+                }
+                // closes come before this step's traffic: the closing end does not write in that step
+                if let Some(cl) = plan.closes.get(&k) {
+                    for (peer, how) in cl {
+                        let conn = conns.borrow_mut().remove(peer);
+                        let Some(mut c) = conn else { continue };
+                        let fin = matches!(how, CloseHow::DropBoth | CloseHow::DropWriter | CloseHow::Shutdown) && c.w.is_some() && !c.shut;
+                        sh.log.borrow_mut().push(Ev::Close { host: me, peer: *peer, how: *how, step: k });
+                        if fin {
+                            // a FIN is put on the wire now (DropBoth may send a RST instead)
+                            sh.log.borrow_mut().push(Ev::Send { id: (P::Fin, me, *peer, 0), step: k });
+                        }
+                        if matches!(how, CloseHow::DropBoth | CloseHow::DropReader) {
+                            if let Some(h) = c.reader.take() {
+                                h.abort();
+                                // resolves once the task, and with it the read half, has been dropped
+                                let _ = h.await;
+                            }
+                        }
+                        match how {
+                            CloseHow::DropBoth | CloseHow::DropWriter => c.w = None,
+                            CloseHow::Shutdown => {
+                                if let Some(w) = c.w.as_mut() {
+                                    if !c.shut {
+                                        let _ = poll_once(w.shutdown()).await;
+                                        c.shut = true;
+                                    }
+                                }
+                            }
+                            CloseHow::DropReader => {}
+                        }
+                        conns.borrow_mut().insert(*peer, c);
+                    }
+                }
+                if k <= plan.traffic_end {
+                    for peer in 0..plan.n {
+                        if peer == me {
+                            continue;
+                        }
+                        let id = (P::Udp, me, peer, seq);
+                        sh.log.borrow_mut().push(Ev::Send { id, step: k });
+                        let r = if plan.named[peer] {
+                            udp.send_to(&enc(P::Udp, me, peer, seq), (format!("h{peer}").as_str(), UDP_PORT)).await
+                        } else {
+                            let ip = sh.addrs.borrow()[peer];
+                            udp.send_to(&enc(P::Udp, me, peer, seq), (ip, UDP_PORT)).await
+                        };
+                        if let Err(e) = r {
+                            sh.errors.borrow_mut().push(format!("h{me}: send_to {e}"));
+                        }
+                        if plan.tcp {
+                            let mut cs = conns.borrow_mut();
+                            if let Some(c) = cs.get_mut(&peer) {
+                                if !c.shut {
+                                    if let Some(w) = c.w.as_mut() {
+                                        let id = (P::Tcp, me, peer, seq);
+                                        let chunk = enc(P::Tcp, me, peer, seq);
+                                        match poll_once(w.write_all(&chunk)).await {
+                                            Some(Ok(())) => sh.log.borrow_mut().push(Ev::Send { id, step: k }),
+                                            Some(Err(e)) => {
+                                                // the stream is broken: nothing was sent
+                                                sh.log.borrow_mut().push(Ev::Saw {
+                                                    at: me,
+                                                    peer,
+                                                    what: Seen::WriteErr,
+                                                    kind: format!("{:?}", e.kind()),
+                                                    step: k,
+                                                });
+                                                c.w = None;
+                                            }
+                                            // refused by flow control: nothing was sent
+                                            None => {}
+                                        }
+                                    }
+                                }
+                            }
+                        }
+                    }
+                    seq += 1;
+                    if let Some(ps) = plan.probes.get(&k) {
+                        for peer in ps {
+                            let id = (P::Syn, me, *peer, probe_seq);
+                            probe_seq += 1;
+                            sh.log.borrow_mut().push(Ev::Send { id, step: k });
+                            let sh4 = sh.clone();
+                            let dst: Result<String, IpAddr> =
+                                if plan.named[*peer] { Ok(format!("h{peer}")) } else { Err(sh.addrs.borrow()[*peer]) };
+                            tokio::task::spawn_local(async move {
+                                let r = match dst {
+                                    Ok(name) => turmoil::net::TcpStream::connect((name.as_str(), PROBE_PORT)).await,
+                                    Err(ip) => turmoil::net::TcpStream::connect((ip, PROBE_PORT)).await,
+                                };
+                                sh4.log.borrow_mut().push(Ev::ProbeResult {
+                                    id,
+                                    ok: r.is_ok(),
+                                    kind: r.as_ref().err().map(|e| format!("{:?}", e.kind())).unwrap_or_default(),
+                                });
+                            });
+                        }
+                    }
+                }
+            }
+        }
+        tokio::time::sleep(Duration::from_millis(1)).await;
+    }
+}
+
+// ======================================================================
 
 pub fn run(sc: &Scenario) -> Outcome {
     let mut out = Outcome::ok();
@@ -78,6 +597,34 @@ pub fn run(sc: &Scenario) -> Outcome {
     // random link failures only after the warm-up (set through the Sim handle below)
     let mut sim = b.build();
 
+    // address plan
+    let named: Vec<bool> = (0..n).map(|h| sc.addr.explicit.get(h).copied().flatten().is_none()).collect();
+    let mut pre_seen = BTreeSet::new();
+    for h in &sc.addr.pre_resolve {
+        let h = h % n;
+        if named[h] && pre_seen.insert(h) {
+            // resolving a name allocates its address
+            let _ = sim.lookup(format!("h{h}"));
+        }
+    }
+    let mut pool_used = BTreeSet::new();
+    let mut explicit_ip: Vec<Option<IpAddr>> = vec![None; n];
+    for h in 0..n {
+        if let Some(k) = sc.addr.explicit.get(h).copied().flatten() {
+            let mut k = k % 8;
+            while !pool_used.insert(k) {
+                k = (k + 1) % 8;
+            }
+            explicit_ip[h] = Some(pool_addr(k, sc.v6));
+        }
+    }
+    // selectors as they are really issued (regexes cannot match unnamed hosts)
+    let ctl_eff: Vec<CtlEv> = sc
+        .ctl
+        .iter()
+        .map(|c| CtlEv { a: eff_sel(&c.a, n, &named), b: eff_sel(&c.b, n, &named), ..c.clone() })
+        .collect();
+
     // plans
     let mut used_probe = BTreeSet::new();
     let mut probes_by_host: Vec<BTreeMap<u64, Vec<usize>>> = vec![BTreeMap::new(); n];
@@ -90,13 +637,25 @@ pub fn run(sc: &Scenario) -> Outcome {
     }
     let mut sim_ctl_at: BTreeMap<u64, Vec<CtlEv>> = BTreeMap::new();
     let mut host_ctl_at: Vec<BTreeMap<u64, Vec<CtlEv>>> = vec![BTreeMap::new(); n];
-    for c in &sc.ctl {
+    for c in &ctl_eff {
         if c.step >= sc.traffic_steps {
             continue;
         }
         match c.by {
             None => sim_ctl_at.entry(warm + c.step as u64).or_default().push(c.clone()),
             Some(h) => host_ctl_at[h % n].entry(warm + 1 + c.step as u64).or_default().push(c.clone()),
+        }
+    }
+    // at most one close per host pair, so that the other end never closes
+    let mut closes_by_host: Vec<BTreeMap<u64, Vec<(usize, CloseHow)>>> = vec![BTreeMap::new(); n];
+    let mut used_close = BTreeSet::new();
+    if sc.tcp {
+        for c in &sc.closes {
+            let (h, p) = (c.host % n, c.peer % n);
+            if h == p || c.step >= sc.traffic_steps || !used_close.insert((h.min(p), h.max(p))) {
+                continue;
+            }
+            closes_by_host[h].entry(warm + 1 + c.step as u64).or_default().push((p, c.how));
         }
     }
     for h in 0..n {
@@ -107,14 +666,26 @@ pub fn run(sc: &Scenario) -> Outcome {
             warm,
             traffic_end,
             tcp: sc.tcp,
+            named: named.clone(),
             ctl: host_ctl_at[h].clone(),
             probes: probes_by_host[h].clone(),
-            sends: None,
+            closes: closes_by_host[h].clone(),
         };
         let shc = sh.clone();
-        sim.host(format!("h{h}"), move || host_software(shc.clone(), plan.clone()));
+        match explicit_ip[h] {
+            Some(ip) => sim.host(ip, move || host_software(shc.clone(), plan.clone())),
+            None => sim.host(format!("h{h}"), move || host_software(shc.clone(), plan.clone())),
+        }
     }
-    let ip2h: BTreeMap<std::net::IpAddr, usize> = (0..n).map(|h| (sim.lookup(format!("h{h}")), h)).collect();
+    let addrs: Vec<IpAddr> = (0..n).map(|h| explicit_ip[h].unwrap_or_else(|| sim.lookup(format!("h{h}")))).collect();
+    *sh.addrs.borrow_mut() = addrs.clone();
+    let ip2h: BTreeMap<IpAddr, usize> = addrs.iter().enumerate().map(|(h, a)| (*a, h)).collect();
+    if ip2h.len() != n {
+        out.fail("harness:duplicate-address", format!("{addrs:?}"));
+        return out;
+    }
+    // a link is registered (earlier-registered host, new host): hosts are registered in index order
+    let descending = |x: usize, y: usize| addrs[x.min(y)] > addrs[x.max(y)];
 
     let total = traffic_end + tail;
     for done in 0..total {
@@ -131,7 +702,7 @@ pub fn run(sc: &Scenario) -> Outcome {
                     by_host: false,
                     snapshot: Some(snap),
                 });
-                sim_ctl(&sim, c, n);
+                sim_ctl(&sim, c, n, &named, &addrs);
             }
         }
         sh.step.set(done + 1);
@@ -160,11 +731,30 @@ pub fn run(sc: &Scenario) -> Outcome {
     let mut n_sent_cut = 0u64;
     let mut n_inflight = 0u64;
     let mut n_after_repair = 0u64;
+    // --- TCP closes (FIN / RST are messages too)
+    // (closer, peer): that end closed something itself; what it sees afterwards is its own doing
+    let mut closed_end: BTreeSet<(usize, usize)> = BTreeSet::new();
+    // unordered pair -> step of the close on that stream
+    let mut close_step: BTreeMap<(usize, usize), u64> = BTreeMap::new();
+    // FINs whose delivery is required when clear (the stream stays otherwise intact: no RST can be provoked)
+    let mut fin_must: BTreeSet<MsgId> = BTreeSet::new();
+    // (observer, closer): the closer closed while closer->observer was explicitly cut and that cut
+    // has not been lifted since: every FIN/RST of that stream so far was sent into the cut
+    let mut shield: BTreeSet<(usize, usize)> = BTreeSet::new();
+    let mut reset_violation: Option<(String, String)> = None;
+    let mut n_close = 0u64;
+    let mut n_close_in_cut = 0u64;
+    let mut n_close_in_oneway_cut = 0u64;
+    let mut n_rst_provoked_into_cut = 0u64;
+    let mut rst_shape: BTreeSet<(usize, usize)> = BTreeSet::new();
+    let mut n_shielded_writes = 0u64;
+    let mut n_resets_seen = 0u64;
+    let mut oneway_on_descending = false;
     let mut host_issued = false;
     let mut oneway = false;
     let mut bothways = false;
     let mut regex_sel = false;
-    for c in &sc.ctl {
+    for c in &ctl_eff {
         if matches!(c.a, Sel::Regex(_)) || matches!(c.b, Sel::Regex(_)) {
             regex_sel = true;
         }
@@ -183,6 +773,13 @@ pub fn run(sc: &Scenario) -> Outcome {
                     }
                     St::Clear
                 };
+                if id.0 == P::Tcp && st == St::Clear && shield.contains(&(id.1, id.2)) {
+                    // data flowing towards an end that closed inside a cut of the reverse direction
+                    n_shielded_writes += 1;
+                    if rst_shape.remove(&(id.1, id.2)) {
+                        n_rst_provoked_into_cut += 1;
+                    }
+                }
                 status.insert(*id, st);
                 sent_step.insert(*id, *step);
                 order.push(*id);
@@ -190,10 +787,48 @@ pub fn run(sc: &Scenario) -> Outcome {
             Ev::Recv { id } => {
                 *received.entry(*id).or_default() += 1;
             }
+            Ev::Close { host, peer, how, step } => {
+                n_close += 1;
+                closed_end.insert((*host, *peer));
+                close_step.insert((*host.min(peer), *host.max(peer)), *step);
+                if matches!(how, CloseHow::DropWriter | CloseHow::Shutdown) {
+                    fin_must.insert((P::Fin, *host, *peer, 0));
+                }
+                if cut.contains(&(*host, *peer)) {
+                    n_close_in_cut += 1;
+                    shield.insert((*peer, *host));
+                    if !cut.contains(&(*peer, *host)) {
+                        n_close_in_oneway_cut += 1;
+                        if matches!(how, CloseHow::DropBoth | CloseHow::DropReader) {
+                            rst_shape.insert((*peer, *host));
+                        }
+                    }
+                }
+            }
+            Ev::Saw { at, peer, what, kind, step } => match what {
+                Seen::Eof => {
+                    *received.entry((P::Fin, *peer, *at, 0)).or_default() += 1;
+                }
+                Seen::ReadReset | Seen::WriteErr => {
+                    if closed_end.contains(&(*at, *peer)) {
+                        continue;
+                    }
+                    n_resets_seen += 1;
+                    if shield.contains(&(*at, *peer)) && reset_violation.is_none() {
+                        let via = if *what == Seen::WriteErr { "write-failed" } else { "read-failed" };
+                        reset_violation = Some((
+                            format!("tcp-reset-delivered-across-partitioned-direction:{via}"),
+                            format!(
+                                "h{peer} closed its end of the stream with h{at} in step {} while h{peer}->h{at} was explicitly partitioned, and that direction was not repaired since; yet in step {step} h{at} saw {kind} ({what:?}) on the stream: a RST crossed the partitioned direction",
+                                close_step[&(*at.min(peer), *at.max(peer))]
+                            ),
+                        ));
+                    }
+                }
+            },
             Ev::ProbeResult { id, ok, kind } => {
                 probe_results.insert(*id, (*ok, kind.clone()));
             }
-            Ev::Manual { .. } => {}
             Ev::Ctl { kind, pairs, step, by_host, snapshot } => {
                 if *by_host {
                     host_issued = true;
@@ -206,7 +841,12 @@ pub fn run(sc: &Scenario) -> Outcome {
                             dirs.push((*x, *y));
                             dirs.push((*y, *x));
                         }
-                        Kind::PartitionOneway | Kind::RepairOneway => dirs.push((*x, *y)),
+                        Kind::PartitionOneway | Kind::RepairOneway => {
+                            dirs.push((*x, *y));
+                            if descending(*x, *y) {
+                                oneway_on_descending = true;
+                            }
+                        }
                         Kind::Hold | Kind::Release => {}
                     }
                 }
@@ -265,6 +905,9 @@ pub fn run(sc: &Scenario) -> Outcome {
                     Kind::Repair | Kind::RepairOneway => {
                         for d in &dirs {
                             cut.remove(d);
+                            // from now on a RST may legitimately travel d.0 -> d.1
+                            shield.remove(&(d.1, d.0));
+                            rst_shape.remove(&(d.1, d.0));
                         }
                     }
                     Kind::Hold | Kind::Release => {}
@@ -272,11 +915,14 @@ pub fn run(sc: &Scenario) -> Outcome {
             }
         }
     }
+    let lat_steps = lat_max.div_ceil(tick);
 
     // ---------------- rules
     let mut tcp_broken: BTreeSet<(usize, usize)> = BTreeSet::new();
     let mut checked_must_not = 0u64;
     let mut checked_must = 0u64;
+    let mut n_fin_must_not = 0u64;
+    let mut n_fin_must = 0u64;
     for id in &order {
         let st = status[id];
         let got = received.get(id).copied().unwrap_or(0);
@@ -316,10 +962,18 @@ pub fn run(sc: &Scenario) -> Outcome {
                         }
                     }
                     St::Clear => {
-                        if fail == 0.0 {
+                        let link = (id.1.min(id.2), id.1.max(id.2));
+                        let near_close = id.0 == P::Tcp
+                            && close_step.get(&link).map(|c| sent_step[id] + lat_steps + 2 >= *c).unwrap_or(false);
+                        if near_close {
+                            // one end closed (part of) this stream around or before the arrival:
+                            // whether the chunk is read is TCP's business, not this property's
+                            if got == 0 {
+                                tcp_broken.insert((id.1, id.2));
+                            }
+                        } else if fail == 0.0 {
                             checked_must += 1;
                             if got == 0 {
-                                let link = (id.1.min(id.2), id.1.max(id.2));
                                 let wher = if !touched_links.contains(&link) {
                                     "on-a-link-no-call-ever-named"
                                 } else if after_repair.contains(id) {
@@ -342,6 +996,40 @@ pub fn run(sc: &Scenario) -> Outcome {
                     }
                 }
             }
+            P::Fin => match st {
+                St::SentWhileCut | St::InFlightAtCut => {
+                    checked_must_not += 1;
+                    n_fin_must_not += 1;
+                    if got > 0 {
+                        let why = if st == St::SentWhileCut { "sent-while-partitioned" } else { "in-flight-when-partition-imposed" };
+                        let flavour = if fail > 0.0 { "random-failures-on" } else { "random-failures-off" };
+                        out.fail(
+                            format!("tcp-fin-{why}-was-delivered:{flavour}"),
+                            format!("the FIN h{}->h{} sent in step {} was delivered: h{} read end-of-stream; fail_rate {fail} repair_rate {repair}", id.1, id.2, sent_step[id], id.2),
+                        );
+                        return out;
+                    }
+                }
+                St::Clear if fail == 0.0 && fin_must.contains(id) && !tcp_broken.contains(&(id.1, id.2)) => {
+                    checked_must += 1;
+                    n_fin_must += 1;
+                    if got == 0 {
+                        let wher = if after_repair.contains(id) {
+                            "sent-after-explicit-repair"
+                        } else if ever_cut.contains(&(id.2, id.1)) && !ever_cut.contains(&(id.1, id.2)) {
+                            "reverse-direction-of-oneway-partition"
+                        } else {
+                            "sent-while-direction-clear"
+                        };
+                        out.fail(
+                            format!("tcp-fin-clear-message-lost:{wher}"),
+                            format!("the FIN h{}->h{} sent in step {} while that direction was not partitioned (all earlier chunks arrived) was never seen by h{}", id.1, id.2, sent_step[id], id.2),
+                        );
+                        return out;
+                    }
+                }
+                _ => {}
+            },
             P::Syn => {
                 let Some((ok, kind)) = probe_results.get(id) else {
                     // still pending at the end
@@ -386,6 +1074,47 @@ pub fn run(sc: &Scenario) -> Outcome {
         }
     }
 
+    if let Some((sig, detail)) = reset_violation {
+        out.fail(sig, detail);
+        return out;
+    }
+
+    if sc.addr.pre_resolve.iter().any(|h| named[h % n]) {
+        out.label("addr:names-resolved-before-registration");
+    }
+    if named.iter().any(|x| !x) {
+        out.label("addr:explicit-ip-hosts");
+    }
+    if (0..n).any(|x| (x + 1..n).any(|y| descending(x, y))) {
+        out.label("addr:some-link-registered-descending");
+    } else {
+        out.label("addr:all-links-registered-ascending");
+    }
+    if oneway_on_descending {
+        out.label("oneway-call-on-descending-registered-link");
+    }
+    if n_close > 0 {
+        out.label("tcp-close");
+    }
+    if n_close_in_cut > 0 {
+        out.label("tcp-close-inside-cut");
+    }
+    if n_close_in_oneway_cut > 0 {
+        out.label("tcp-close-inside-oneway-cut");
+    }
+    if n_rst_provoked_into_cut > 0 {
+        out.label("tcp-rst-provoked-into-cut");
+    }
+    if n_fin_must_not > 0 {
+        out.label("tcp-fin-must-not-arrive");
+    }
+    if n_fin_must > 0 {
+        out.label("tcp-fin-must-arrive");
+    }
+    if n_resets_seen > 0 {
+        out.label("tcp-reset-seen-by-surviving-end");
+    }
+    out.count("chunks written towards an end that closed inside a still-standing cut", n_shielded_writes);
     if oneway {
         out.label("oneway");
     }
@@ -435,6 +1164,30 @@ fn kind_strategy() -> BoxedStrategy<Kind> {
     .boxed()
 }
 
+fn addr_strategy() -> BoxedStrategy<AddrPlan> {
+    let perm = Just((0usize..4).collect::<Vec<usize>>()).prop_shuffle();
+    let expl = proptest::collection::vec(prop_oneof![1 => Just(None), 1 => (0u8..8).prop_map(Some)], 4);
+    prop_oneof![
+        // the usual layout: names, addresses allocated in registration order
+        4 => Just(AddrPlan::default()),
+        // some names resolved (in any order) before the hosts are registered
+        3 => (perm.clone(), 1usize..=4).prop_map(|(p, l)| AddrPlan { pre_resolve: p[..l].to_vec(), explicit: vec![] }),
+        // some hosts registered under explicit addresses, the rest as above
+        3 => (perm, 0usize..=4, expl).prop_map(|(p, l, e)| AddrPlan { pre_resolve: p[..l].to_vec(), explicit: e }),
+    ]
+    .boxed()
+}
+
+fn how_strategy() -> BoxedStrategy<CloseHow> {
+    prop_oneof![
+        2 => Just(CloseHow::DropBoth),
+        1 => Just(CloseHow::DropReader),
+        1 => Just(CloseHow::DropWriter),
+        1 => Just(CloseHow::Shutdown)
+    ]
+    .boxed()
+}
+
 pub fn strategy() -> BoxedStrategy<Scenario> {
     let rates = prop_oneof![
         3 => Just((0u32, 100u32)),
@@ -459,9 +1212,13 @@ pub fn strategy() -> BoxedStrategy<Scenario> {
             ),
             1..7,
         ),
+        addr_strategy(),
+        proptest::collection::vec((0u32..24, 0usize..4, 0usize..4, how_strategy()), 0..3),
     )
         .prop_map(
-            |((nhosts, tick_ms, (lat_min, lat_max), (fail_x100, repair_x100), seed, random_order, v6, traffic_steps, tcp), probes, ctl)| {
+            |((nhosts, tick_ms, (lat_min, lat_max), (fail_x100, repair_x100), seed, random_order, v6, traffic_steps, tcp), probes, ctl, addr, closes)| {
+                let mut closes: Vec<CloseOp> =
+                    closes.into_iter().map(|(step, host, peer, how)| CloseOp { step, host, peer, how }).collect();
                 let mut ctl: Vec<CtlEv> = ctl
                     .into_iter()
                     .map(|(step, by, kind, a, b)| CtlEv { step, by, kind, a, b })
@@ -479,8 +1236,25 @@ pub fn strategy() -> BoxedStrategy<Scenario> {
                     ctl[0] = CtlEv { step: s0, kind: cut_kind, ..first.clone() };
                     ctl.push(CtlEv { step: s1, kind: rep_kind, ..first });
                 }
+                // bias: in three quarters of the TCP cases one end of a stream named by the
+                // first call (mostly the source side) closes shortly after that call, so that
+                // closes inside a cut are common
+                if tcp && (seed >> 16) % 4 != 0 {
+                    if let Some((x, y)) = sel::pairs(&ctl[0].a, &ctl[0].b, nhosts).first().copied() {
+                        let (host, peer) = if (seed >> 18) % 4 != 0 { (x, y) } else { (y, x) };
+                        let how = match (seed >> 22) % 5 {
+                            0 | 1 => CloseHow::DropBoth,
+                            2 => CloseHow::DropReader,
+                            3 => CloseHow::DropWriter,
+                            _ => CloseHow::Shutdown,
+                        };
+                        closes.insert(0, CloseOp { step: ctl[0].step + ((seed >> 20) % 3) as u32, host, peer, how });
+                    }
+                }
                 ctl.sort_by_key(|c| c.step);
                 Scenario {
+                    addr,
+                    closes,
                     nhosts,
                     tick_ms,
                     lat_min,
@@ -550,7 +1324,24 @@ fn exhaustive_space(tier: Tier) -> Vec<Scenario> {
                         b: if (qi + i) % 3 == 1 { Sel::Regex(vec![*b]) } else { Sel::Name(*b) },
                     })
                     .collect();
+                // address layout family: usual / names resolved in descending order before
+                // registration / hosts registered under descending explicit addresses
+                let addr = match (qi + pi + si) % 3 {
+                    0 => AddrPlan::default(),
+                    1 => AddrPlan { pre_resolve: vec![2, 1, 0], explicit: vec![] },
+                    _ => AddrPlan { pre_resolve: vec![], explicit: vec![Some(5), Some(4), Some(2)] },
+                };
+                // in half of the TCP scenarios the first-named host of the first call closes
+                // its end of the 0<->1 stream one step after that call
+                let closes = if qi % 4 == 0 {
+                    let how = [CloseHow::DropBoth, CloseHow::DropReader, CloseHow::DropWriter, CloseHow::Shutdown][(qi / 4 + pi) % 4];
+                    vec![CloseOp { step: pl[0] + 1, host: s[0].1, peer: s[0].2, how }]
+                } else {
+                    vec![]
+                };
                 out.push(Scenario {
+                    addr,
+                    closes,
                     nhosts: 3,
                     tick_ms: *tick,
                     lat_min: lat.0,
@@ -602,6 +1393,20 @@ pub fn fuzz_sanitize(sc: &mut Scenario) -> bool {
         fix_sel(&mut c.a);
         fix_sel(&mut c.b);
     }
+    sc.addr.pre_resolve.truncate(4);
+    for h in sc.addr.pre_resolve.iter_mut() {
+        *h %= 4;
+    }
+    sc.addr.explicit.truncate(4);
+    for k in sc.addr.explicit.iter_mut().flatten() {
+        *k %= 8;
+    }
+    sc.closes.truncate(3);
+    for c in sc.closes.iter_mut() {
+        c.step %= 24;
+        c.host %= 4;
+        c.peer %= 4;
+    }
     sc.fail_x100 %= 101;
     sc.repair_x100 %= 101;
     sc.ctl.retain(|c| !matches!(c.kind, Kind::Hold | Kind::Release));
@@ -615,19 +1420,23 @@ fn check(tier: Tier, seed: u64) -> i32 {
     ctx.replay_corpus(&replay);
     let space = exhaustive_space(tier);
     let desc = format!(
-        "all 584 sequences of length <= 3 over {{partition, partition_oneway, repair, repair_oneway}} x {{(A,B),(B,A)}} x 3 step placements x {} (fail/repair rate, latency, tick, issuer) settings = {} scenarios on 3 hosts",
+        "all 584 sequences of length <= 3 over {{partition, partition_oneway, repair, repair_oneway}} x {{(A,B),(B,A)}} x 3 step placements x {} (fail/repair rate, latency, tick, issuer) settings = {} scenarios on 3 hosts; rotating over 3 address layouts (usual / names resolved in descending order before registration / descending explicit addresses) and, in a quarter of them, one of 4 kinds of TCP close by the first-named host one step after the first call",
         space.len() / (584 * 3),
         space.len()
     );
     ctx.exhaustive("sequences<=3", &desc, Box::new(space.into_iter()), &run);
-    ctx.random("random", tier.pick(16_000, 200_000), &|| strategy(), &run);
+    ctx.random("random", tier.pick(40_000, 400_000), &|| strategy(), &run);
     ctx.finish(
-        "bounded-exhaustive enumeration of every controller sequence of length <= 3 (see exhaustive_subspaces) plus random longer sequences (1-6 calls by name/IP/regex from the Sim handle or from host code, 2-4 hosts, fixed or ranged latency, fail/repair rates in [0,1], UDP every step on every ordered pair, optional persistent TCP streams and connect probes). Model: explicit[a->b] driven only by the controller's calls; in-flight sets taken from Sim::links immediately before each Sim-side call (computed from the fixed latency for host-side calls). Non-trivial = >=1 message sent during a cut, >=1 in flight when a cut was imposed and >=1 sent after the repair of a direction that had been cut. Distinct by scenario hash.",
+        "bounded-exhaustive enumeration of every controller sequence of length <= 3 (see exhaustive_subspaces) plus random longer sequences (1-6 calls by name/IP/regex from the Sim handle or from host code, 2-4 hosts, fixed or ranged latency, fail/repair rates in [0,1], UDP every step on every ordered pair, optional persistent TCP streams and connect probes). Address layout is generated: names with addresses in registration order, names resolved through Sim::lookup in any order before registration, hosts registered under explicit addresses below/above the allocated range (named by IP or IP string), so the two hosts of a link are registered in ascending or descending address order. On TCP streams up to one close per host pair is generated (drop both halves / drop reader / drop writer / shutdown), mostly shortly after the first call. Model: explicit[a->b] driven only by the controller's calls; in-flight sets taken from Sim::links immediately before each Sim-side call (computed from the fixed latency for host-side calls). Messages are turmoil wire messages: datagrams, TCP data chunks, SYNs, and the control segments FIN (delivery = the peer reads end-of-stream) and RST (delivery = the peer's read fails with ConnectionReset or its write with BrokenPipe). A FIN is treated like a data chunk (never delivered if sent into / in flight at a cut; required on a clear direction with fail_rate 0 when only the write side was closed). RST: if an end closes while its outgoing direction is explicitly cut, every RST its stack emits for that stream until that direction is explicitly repaired is sent into the cut, so the surviving end must see no reset before such a repair. Non-trivial = >=1 message sent during a cut, >=1 in flight when a cut was imposed and >=1 sent after the repair of a direction that had been cut. Distinct by scenario hash.",
         &[
             "hold/release is outside the alphabet (documented as unsupported with one-way partitions)",
             "for host-issued calls under a ranged latency, messages of the affected direction that may or may not have been in flight are neither required nor forbidden",
             "TCP chunks behind a lost segment are left to C02",
             "the keeps-flowing half is only asserted with fail_rate = 0",
+            "TCP chunks sent on a stream within (max latency + 2 steps) before, or any time after, a close on that stream are not required to arrive (whether they are read is TCP's business); they are still forbidden to arrive across a cut",
+            "what the closing end itself observes on the stream is not checked; the surviving end never closes anything",
+            "flow-control credits and the SYN-ACK are not wire messages in turmoil (shared memory / oneshot channel): nothing is asserted about them",
+            "a regex cannot match a host registered under an explicit address (no DNS name): such hosts are removed from generated regex selectors",
         ],
     )
 }
